@@ -139,7 +139,31 @@ def check_propagation():
                                  'keeps a value'})
 
 
+def check_sparse_cost():
+    """a problem already in matrix form whose cost row is sparse is solved
+    with the default (dense) format"""
+    from cvxopt import solvers, sparse
+    solvers.options['show_progress'] = False
+    x = variable(3, 'x')
+    c = sparse(matrix([1.0, 0.0, 2.0], (1, 3)))
+    G = matrix([[-1., 0., 0.], [0., -1., 0.], [0., 0., -1.]])
+    p = op(c * x, [G * x <= matrix([0., 0., 0.]),
+                   matrix([[1.], [1.], [1.]]) * x == matrix([1.0])])
+    try:
+        p.solve()
+        if p.status != 'optimal':
+            fail('propagation', {'case': 'sparse cost row', 'status':
+                                 p.status})
+    except Exception as e:
+        fail('propagation', {'case': 'sparse cost row, format dense',
+                             'raised': repr(e)})
+
+
 check_assembly()
+try:
+    check_sparse_cost()
+except Exception as e:
+    fail('propagation', {'sparse cost exception': repr(e)})
 try:
     check_propagation()
 except Exception as e:
